@@ -121,6 +121,8 @@ def rule_drain(chk, repo, rid='C06.a'):
     if enum:
         seq = unparse(loop.iter.args[0])
         ordn = unparse(loop.target.elts[0])
+        st_ = kwarg(loop.iter, 'start') or (loop.iter.args[1] if len(loop.iter.args) > 1 else None)
+        enum_start = 0 if st_ is None else (st_.value if isinstance(st_, ast.Constant) and isinstance(st_.value, int) else None)
     last_found = False
     nonlast_ok = True
     every_iter_idiom = False
@@ -150,8 +152,8 @@ def rule_drain(chk, repo, rid='C06.a'):
                     continue
                 # soundness of the ordinal
                 if enum:
-                    ok = dd == 1
-                    ord_detail = f"enumerate index {nm}, atom offset {dd}"
+                    ok = enum_start is not None and dd == 1 - enum_start
+                    ord_detail = f"enumerate index {nm} from {enum_start}, atom offset {dd}"
                 else:
                     init = None
                     for st in (parent_body or [])[:parent_body.index(loop)]:
